@@ -53,13 +53,19 @@ func (c customErr) Unwrap() error { return c.inner }
 // realiseErr builds the Go error for user error id u; the flavour depends on u only.
 func realiseErr(u int) error {
 	base := &UErr{ID: u}
-	switch u % 3 {
+	switch u % 5 {
 	case 0:
 		return base
 	case 1:
 		return fmt.Errorf("wrapped by user: %w", base)
-	default:
+	case 2:
 		return customErr{inner: base, note: "custom"}
+	case 3:
+		// the usual shape of a per-attempt downstream timeout: wraps a context error although
+		// the run's own context is alive
+		return fmt.Errorf("downstream call: %w (%w)", base, context.DeadlineExceeded)
+	default:
+		return fmt.Errorf("downstream call: %w (%w)", base, context.Canceled)
 	}
 }
 
@@ -73,10 +79,9 @@ func classify(err error, ctx context.Context) *Err {
 	if errors.As(err, &ue) {
 		return &Err{K: "user", U: ue.ID}
 	}
+	// "matches the context's error": errors.Is against the error this very context reports,
+	// not against some context error
 	if ctx != nil && ctx.Err() != nil && errors.Is(err, ctx.Err()) {
-		return &Err{K: "ctx"}
-	}
-	if errors.Is(err, context.Canceled) || errors.Is(err, context.DeadlineExceeded) {
 		return &Err{K: "ctx"}
 	}
 	return &Err{K: "fw"}
@@ -95,6 +100,7 @@ type Val struct {
 }
 
 func vNil() Val         { return Val{T: "nil"} }
+func vOther(shape string) Val { return Val{T: "other", Shape: shape} }
 func vTok(n int) Val    { return Val{T: "tok", N: n} }
 func vAct(a int) Val    { return Val{T: "act", N: a} }
 func vRes(v Val) Val    { return Val{T: "res", V: &v} }
@@ -246,6 +252,16 @@ func (w *world) realise(v Val) any {
 				out[i] = w.realise(x)
 			}
 			return out
+		}
+	}
+	if v.T == "other" {
+		switch v.Shape {
+		case "nilptr":
+			return (*Tok)(nil)
+		case "nilmap":
+			return map[string]int(nil)
+		case "nilfunc":
+			return (func())(nil)
 		}
 	}
 	return struct{ unknown bool }{true}
